@@ -71,7 +71,7 @@ func (x *Exec) checkFrame(epoch int, what string) {
 // (the stored value differs from the old one); the model is taken under it
 // when possible so that the native replay can see the change.
 func (x *Exec) checkFrameVis(epoch int, what string, vis string) {
-	if x.monitor && epoch < x.epoch {
+	if x.monitor && epoch < x.epoch && !(x.lockDepth > 0 && x.job.LockedWritesOK) {
 		// obligation failure: a write to memory that existed before verifFreeze
 		x.job.obligations.Add(1)
 		if vis != "true" && x.sol.feasible(vis) == "sat" {
